@@ -25,7 +25,8 @@ L1 = {
                 assumptions=[INTERN]),
     "C06": dict(profile="C06", n_quick=240, n_thorough=8000, len_thorough=250, own_kinds=[3, 8],
                 rule="online-generated histories (profile C06: participants owning 0-5 entities with random persist flags, components of several types, actions, assets, subscriptions; departures by disconnect, handler error, undecodable frame, switching join); non-trivial = contains a departure that removes entities and one that keeps a persistent entity... counted as accepted+refused of the join / entity-add kinds; distinct by op list",
-                assumptions=[INTERN, "the wire-level causes of a connection ending (idle timeout, TCP reset, ...) funnel into the same HandleDisconnect; that funnel is C08's subject"]),
+                assumptions=[INTERN, "the wire-level causes of a connection ending (idle timeout, TCP reset, ...) funnel into the same HandleDisconnect; that funnel is C08's subject",
+                             "client requests carry origin timestamps >= 1 (the generator counts up from 1): the predicate recognises a departure's own delete broadcasts by origin timestamp 0 (RefMod_C06_refuted shows the condition is needed for the predicate, not for the property)"]),
     "C07": dict(profile="C07", n_quick=240, n_thorough=8000, len_thorough=300, own_kinds=[3],
                 rule="online-generated histories (profile C07: long create / join / switch / end cycles over up to 4 sessions with session-id reuse, joins of live, dead, guessed and junk ids; hook snapshot of registry keys, gauge and frame-handler counts after ~40% of the ops); non-trivial = contains an accepted and a refused join; distinct by op list",
                 assumptions=["the handler-level histories are sequential; the lock-granularity interleavings of concurrent joins / departures are decided by the second part of this check (coverage.concurrent_clause)"]),
